@@ -7,56 +7,77 @@ From RSATie Require Import Tie_C05.
 Import ListNotations.
 Open Scope nat_scope.
 
-(* the source's k-fold index arithmetic is the model's, for every group count n, fold count k and fold i *)
-Theorem C05_gen_kfold_pattern_is_model : forall n k i : nat, 0 < k -> k <= n -> i < k ->
-  Gen_C05.kfold_pattern_idx (Z.of_nat n) (Z.of_nat k) (Z.of_nat i)
-  = (map Z.of_nat (kfold_test n k i), map Z.of_nat (kfold_train n k i)).
+(* the group values the source hands out for fold i are the model's, for every (shuffled) group order, fold count k
+   and fold i *)
+Theorem C05_gen_kfold_pattern_is_model : forall (order : list Z) (k i : nat), 0 < k -> k <= length order -> i < k ->
+  Gen_C05.kfold_pattern_idx order (Z.of_nat k) (Z.of_nat i)
+  = (vals_at order (kfold_test (length order) k i), vals_at order (kfold_train (length order) k i)).
 Proof. exact kfold_pattern_idx_tie. Qed.
 Print Assumptions C05_gen_kfold_pattern_is_model.
 
-Theorem C05_gen_kfold_rdm_is_model : forall n k i : nat, 0 < k -> k <= n -> i < k ->
-  Gen_C05.kfold_rdm_idx (Z.of_nat n) (Z.of_nat k) (Z.of_nat i)
-  = (map Z.of_nat (kfold_test n k i), map Z.of_nat (kfold_train_strict n k i)).
+Theorem C05_gen_kfold_rdm_is_model : forall (order : list Z) (k i : nat), 0 < k -> k <= length order -> i < k ->
+  Gen_C05.kfold_rdm_idx order (Z.of_nat k) (Z.of_nat i)
+  = (vals_at order (kfold_test (length order) k i), vals_at order (kfold_train_strict (length order) k i)).
 Proof. exact kfold_rdm_idx_tie. Qed.
 Print Assumptions C05_gen_kfold_rdm_is_model.
 
-Theorem C05_gen_kfold_both_is_model : forall n k i : nat, 0 < k -> k <= n -> i < k ->
-  Gen_C05.kfold_both_rdm_idx (Z.of_nat n) (Z.of_nat k) (Z.of_nat i)
-  = (map Z.of_nat (kfold_test n k i), map Z.of_nat (kfold_train n k i)).
+Theorem C05_gen_kfold_both_is_model : forall (order : list Z) (k i : nat), 0 < k -> k <= length order -> i < k ->
+  Gen_C05.kfold_both_rdm_idx order (Z.of_nat k) (Z.of_nat i)
+  = (vals_at order (kfold_test (length order) k i), vals_at order (kfold_train (length order) k i)).
 Proof. exact kfold_both_rdm_idx_tie. Qed.
 Print Assumptions C05_gen_kfold_both_is_model.
 
-(* exhaustive schemes: every group is in exactly one test fold *)
-Theorem C05_gen_kfold_pattern_partition : forall n k : nat, 0 < k -> k <= n ->
-  Permutation (concat (gen_tests Gen_C05.kfold_pattern_idx n k)) (map Z.of_nat (seq 0 n)).
+Theorem C05_gen_random_is_model : forall (rorder porder : list Z) (n_r n_p : nat),
+  n_r <= length rorder -> n_p <= length porder ->
+  let f := random_fold rorder porder n_r n_p in
+  (let '(a, b, c, d) := Gen_C05.random_idx rorder porder (Z.of_nat n_r) (Z.of_nat n_p) in
+   (Some a, Some b, Some c, Some d)) = (te_r f, tr_r f, te_p f, tr_p f).
+Proof. exact random_idx_tie. Qed.
+Print Assumptions C05_gen_random_is_model.
+
+(* exhaustive schemes: every group is in exactly one test fold, for every outcome of the shuffle *)
+Theorem C05_gen_kfold_pattern_partition : forall (order : list Z) (k : nat), 0 < k -> k <= length order ->
+  Permutation (concat (gen_tests Gen_C05.kfold_pattern_idx order k)) order.
 Proof. exact gen_kfold_pattern_partition. Qed.
 Print Assumptions C05_gen_kfold_pattern_partition.
 
-Theorem C05_gen_kfold_rdm_partition : forall n k : nat, 0 < k -> k <= n ->
-  Permutation (concat (gen_tests Gen_C05.kfold_rdm_idx n k)) (map Z.of_nat (seq 0 n)) /\
-  Permutation (concat (gen_tests Gen_C05.kfold_both_rdm_idx n k)) (map Z.of_nat (seq 0 n)).
+Theorem C05_gen_kfold_rdm_partition : forall (order : list Z) (k : nat), 0 < k -> k <= length order ->
+  Permutation (concat (gen_tests Gen_C05.kfold_rdm_idx order k)) order /\
+  Permutation (concat (gen_tests Gen_C05.kfold_both_rdm_idx order k)) order.
 Proof. exact gen_kfold_rdm_partition. Qed.
 Print Assumptions C05_gen_kfold_rdm_partition.
 
 (* fold sizes differ by at most one *)
-Theorem C05_gen_kfold_sizes : forall n k i : nat, 0 < k -> k <= n -> i < k ->
-  let sz f := length (fst (f (Z.of_nat n) (Z.of_nat k) (Z.of_nat i))) in
+Theorem C05_gen_kfold_sizes : forall (order : list Z) (k i : nat), 0 < k -> k <= length order -> i < k ->
+  let n := length order in
+  let sz f := length (fst (f order (Z.of_nat k) (Z.of_nat i))) in
   (sz Gen_C05.kfold_pattern_idx = n / k \/ sz Gen_C05.kfold_pattern_idx = S (n / k)) /\
   (sz Gen_C05.kfold_rdm_idx = n / k \/ sz Gen_C05.kfold_rdm_idx = S (n / k)) /\
   (sz Gen_C05.kfold_both_rdm_idx = n / k \/ sz Gen_C05.kfold_both_rdm_idx = S (n / k)).
 Proof. exact gen_kfold_sizes. Qed.
 Print Assumptions C05_gen_kfold_sizes.
 
-(* more than one fold: test and training indices of a fold are disjoint *)
-Theorem C05_gen_kfold_train_test_disjoint : forall (n k i : nat) (j : Z), 1 < k -> k <= n -> i < k ->
-  (In j (fst (Gen_C05.kfold_pattern_idx (Z.of_nat n) (Z.of_nat k) (Z.of_nat i))) ->
-   ~ In j (snd (Gen_C05.kfold_pattern_idx (Z.of_nat n) (Z.of_nat k) (Z.of_nat i)))) /\
-  (In j (fst (Gen_C05.kfold_rdm_idx (Z.of_nat n) (Z.of_nat k) (Z.of_nat i))) ->
-   ~ In j (snd (Gen_C05.kfold_rdm_idx (Z.of_nat n) (Z.of_nat k) (Z.of_nat i)))) /\
-  (In j (fst (Gen_C05.kfold_both_rdm_idx (Z.of_nat n) (Z.of_nat k) (Z.of_nat i))) ->
-   ~ In j (snd (Gen_C05.kfold_both_rdm_idx (Z.of_nat n) (Z.of_nat k) (Z.of_nat i)))).
+(* more than one fold: the test groups of a fold are disjoint from its training groups *)
+Theorem C05_gen_kfold_train_test_disjoint : forall (order : list Z) (k i : nat) (v : Z),
+  NoDup order -> 1 < k -> k <= length order -> i < k ->
+  (In v (fst (Gen_C05.kfold_pattern_idx order (Z.of_nat k) (Z.of_nat i))) ->
+   ~ In v (snd (Gen_C05.kfold_pattern_idx order (Z.of_nat k) (Z.of_nat i)))) /\
+  (In v (fst (Gen_C05.kfold_rdm_idx order (Z.of_nat k) (Z.of_nat i))) ->
+   ~ In v (snd (Gen_C05.kfold_rdm_idx order (Z.of_nat k) (Z.of_nat i)))) /\
+  (In v (fst (Gen_C05.kfold_both_rdm_idx order (Z.of_nat k) (Z.of_nat i))) ->
+   ~ In v (snd (Gen_C05.kfold_both_rdm_idx order (Z.of_nat k) (Z.of_nat i)))).
 Proof. exact gen_kfold_train_test_disjoint. Qed.
 Print Assumptions C05_gen_kfold_train_test_disjoint.
+
+(* random splits: test and training groups are disjoint in both dimensions, together they are all groups, and the
+   test sides have the requested sizes -- for every outcome of the two shuffles *)
+Theorem C05_gen_random_split : forall (rorder porder : list Z) (n_r n_p : nat),
+  0 < n_r <= length rorder -> 0 < n_p <= length porder -> NoDup rorder -> NoDup porder ->
+  let '(te_r, tr_r, te_p, tr_p) := Gen_C05.random_idx rorder porder (Z.of_nat n_r) (Z.of_nat n_p) in
+  te_r ++ tr_r = rorder /\ te_p ++ tr_p = porder /\ length te_r = n_r /\ length te_p = n_p /\
+  (forall v, In v te_r -> ~ In v tr_r) /\ (forall v, In v te_p -> ~ In v tr_p).
+Proof. exact gen_random_split. Qed.
+Print Assumptions C05_gen_random_split.
 
 (* groups-of-k: the number of folds is floor(n / k); default fold counts *)
 Theorem C05_gen_of_k_groups : forall n k : nat,
@@ -71,8 +92,9 @@ Theorem C05_gen_default_k : forall n : nat,
 Proof. exact (fun n => conj (default_k_pattern_tie n) (default_k_rdm_tie n)). Qed.
 Print Assumptions C05_gen_default_k.
 
-(* non-vacuity: 7 groups in 3 folds, as the source computes them *)
+(* non-vacuity: 7 groups with values 10..16 in 3 folds, and a random split, as the source computes them *)
 Example C05_gen_example :
-  map (fun i => Gen_C05.kfold_pattern_idx 7 3 i) [0; 1; 2]%Z
-  = [([0; 1; 6], [2; 3; 4; 5]); ([2; 3], [0; 1; 4; 5; 6]); ([4; 5], [0; 1; 2; 3; 6])]%Z.
-Proof. vm_compute. reflexivity. Qed.
+  map (fun i => Gen_C05.kfold_pattern_idx [10; 11; 12; 13; 14; 15; 16]%Z 3 i) [0; 1; 2]%Z
+  = [([10; 11; 16], [12; 13; 14; 15]); ([12; 13], [10; 11; 14; 15; 16]); ([14; 15], [10; 11; 12; 13; 16])]%Z
+  /\ Gen_C05.random_idx [5; 3; 4]%Z [9; 7; 8; 6]%Z 1 2 = ([5], [3; 4], [9; 7], [8; 6])%Z.
+Proof. vm_compute. split; reflexivity. Qed.
